@@ -67,7 +67,8 @@ def obj_desc(draw, cls=None, depth=0):
     elif cls in ('Nasa', 'Nasa9', 'Shomate'):
         d['species'] = draw({'Nasa': gen.nasa_desc(), 'Nasa9': gen.nasa9_desc(), 'Shomate': gen.shomate_desc(
             units=('J/mol/K', 'cal/mol/K', 'eV/K'))}[cls])
-        d['species']['phase'] = draw(st.sampled_from([None, 'G', 'S', 'g', 'gas']))
+        d['species']['phase'] = draw(st.sampled_from([None, 'G', 'S', 'g', 'gas', 'Gas']))
+        d['no_P_adj'] = draw(st.sampled_from([False, False, True]))      # the user may switch the pressure adjustment off
         d['elements'] = draw(st.one_of(st.none(), elements_st))
         d['notes'] = draw(text_st)
         d['smiles'] = draw(text_st)
@@ -164,6 +165,8 @@ def build(d):
         sd = dict(d['species'])
         sd['elements'] = d['elements']
         kw = {'notes': d['notes'], 'smiles': d['smiles']}
+        if d.get('no_P_adj'):
+            kw['add_gas_P_adj'] = False
         if d['n_sites'] is not None:
             kw['n_sites'] = d['n_sites']
         if d['cat_site']:
